@@ -399,5 +399,39 @@ pub fn run_case(_ctx: &Ctx, case: &Value, tag: usize, rep: &mut Report, mb: &mut
             }
         }
     }
+    // Earley rows: the items of every row of the real parser vs the Lean model M4 of scan / agenda
+    earley_tie(&world, &g, &sigma, case["seed"].as_u64().unwrap_or(11), tag, rep, mb);
     rep.sample(json!({"family": name, "lark": lark, "max_len": max_len, "reachable": w.acc.len()}));
+}
+
+fn csv<T: std::fmt::Display>(v: impl Iterator<Item = T>) -> String { let s: Vec<String> = v.map(|x| x.to_string()).collect(); if s.is_empty() { "-".into() } else { s.join(",") } }
+
+fn earley_tie(world: &World, g: &Gram, sigma: &[u8], seed: u64, tag: usize, rep: &mut Report, mb: &mut ModelBatch) {
+    let base = world.matcher(g);
+    let Some(cg) = base.verif_token_parser().map(|tp| tp.parser.grammar().verif_dump()) else { return };
+    if cg.parametric || cg.syms.iter().any(|s| s.3) { rep.count("earley.skipped-parametric-or-subgrammar"); return; }
+    let syms = cg.syms.iter().map(|(rules, nullable, lexeme, _, _)| format!("{}/{}/{}", if rules.is_empty() { "-".to_string() } else { rules.iter().map(|r| r.to_string()).collect::<Vec<_>>().join("+") }, *nullable as u8, lexeme.map(|l| l.to_string()).unwrap_or("-".into()))).collect::<Vec<_>>().join(";");
+    let id = 100_000 + tag;
+    mb.push(format!("ey def {id} {} {} {} {}", cg.start, csv(cg.rhs.iter()), csv(cg.lhs_of.iter()), syms), "ok".into(), tag);
+    let mut rng = Rng::new(seed ^ 0xe4);
+    let mut seen: std::collections::HashSet<Vec<Vec<u32>>> = std::collections::HashSet::new();
+    for _walk in 0..6 {
+        let mut m = base.deep_clone();
+        for _step in 0..10 {
+            if m.is_stopped() { break; }
+            let Some(st) = crate::eng::vstate(&m) else { break };
+            if st.definitive && st.row_infos_len == st.num_rows && seen.insert(st.row_lexemes.clone()) {
+                let lexs = if st.row_lexemes.is_empty() { "-".to_string() } else { st.row_lexemes.iter().map(|l| csv(l.iter())).collect::<Vec<_>>().join("|") };
+                let rows = st.rows.iter().map(|r| if r.is_empty() { "-".to_string() } else { r.iter().map(|(p, s)| format!("{p}:{s}")).collect::<Vec<_>>().join(",") }).collect::<Vec<_>>().join(";");
+                rep.count("earley.states");
+                rep.count_n("earley.rows", st.rows.len() as u64);
+                mb.push(format!("ey rows {id} {lexs}"), format!("ok {rows} acc=?"), tag);
+            }
+            let Ok(mask) = m.compute_mask() else { break };
+            let allowed: Vec<u8> = sigma.iter().copied().filter(|b| mask.is_allowed(*b as u32)).collect();
+            if allowed.is_empty() { break; }
+            let b = allowed[rng.below(allowed.len())];
+            if m.consume_token(b as u32).is_err() { break; }
+        }
+    }
 }
